@@ -174,10 +174,17 @@ func runC02(c *Ctx) {
 				chunks = append(chunks, be32(kb), be32(randK(c)))
 				do(fmt.Sprintf("reject/%s/pos%d", rule, pos), dataScript(chunks...), kp.priv, e)
 			}
+			// a candidate refused by a LATE rule followed by the all-zero candidate: state carried from one candidate
+			// to the next (a zero-test accumulator not reset) accepts k = 0 here (seeded C02-c, C01-c)
+			kb, e := craftReject(c, rule, kp.d)
+			do(fmt.Sprintf("reject/%s/then-zero", rule), dataScript(be32(kb), zeroK, be32(randK(c))), kp.priv, e)
+			do(fmt.Sprintf("reject/%s/then-zero-then-end", rule), dataScript(be32(kb), zeroK), kp.priv, e)
 		}
 		for _, first := range [][]byte{bigK, zeroK, allFF, be32(curveN), be32(new(big.Int).Sub(curveN, big.NewInt(1)))} {
 			do("reject/range", dataScript(first, be32(randK(c))), kp.priv, c.rng.Bytes(32))
 			do("reject/range-only", dataScript(first), kp.priv, c.rng.Bytes(32))
+			do("reject/range/then-zero", dataScript(first, zeroK, be32(randK(c))), kp.priv, c.rng.Bytes(32))
+			do("reject/range/then-zero-then-end", dataScript(first, zeroK), kp.priv, c.rng.Bytes(32))
 		}
 		// leading zero bytes in r, s
 		for z := 1; z <= 3; z++ {
